@@ -11,6 +11,8 @@ import json, os, re, shutil, subprocess, sys, tempfile, time, hashlib
 VERIF = os.path.dirname(os.path.dirname(os.path.abspath(__file__)))
 REPO = os.environ.get('VERIF_REPO', '/repo')
 BUILD = os.path.join(VERIF, '.build')
+# deep recursion of the PEG interpreter on 256-character inputs needs a big Java thread stack
+os.environ['JAVA_TOOL_OPTIONS'] = (os.environ.get('JAVA_TOOL_OPTIONS', '') + ' -Xss512m').strip()
 ENV = dict(os.environ, GOFLAGS='-mod=mod', GOPROXY='off', GOSUMDB='off', GOTOOLCHAIN='local',
            CGO_ENABLED=os.environ.get('CGO_ENABLED', '1'))
 SEED = int(os.environ.get('VERIF_SEED', '1') or 1)
@@ -79,9 +81,11 @@ def prepare_spec(sdir):
     peg = os.path.join(REPO, 'jsonpath.peg')
     p2t = os.path.join(VERIF, 'tools', 'peg2tla.py')
     if os.path.exists(p2t):
-        r = subprocess.run([sys.executable, p2t, peg, os.path.join(sdir, 'Grammar.tla')], capture_output=True, text=True)
+        r = subprocess.run([sys.executable, p2t, peg, os.path.join(sdir, 'Grammar.tla'), os.path.join(sdir, 'grammar.json')], capture_output=True, text=True)
         if r.returncode != 0:
             raise Infra('peg2tla failed: ' + r.stdout + r.stderr)
+        if ' 46 actions' not in r.stdout:
+            raise Infra('jsonpath.peg no longer has 46 actions (%s): spec/Actions.tla must be re-transcribed' % r.stdout.strip())
 
 
 def parse_tlc_log(path):
@@ -252,3 +256,81 @@ def main():
             log('scratch kept at', sdir)
 
 
+
+
+# ----------------------------------------------------------------------------- direction B helpers
+
+def extract_corpus(sdir):
+    """the repository's own (path, inputJSON) pairs, textually, from test_jsonpath_test.go"""
+    src = open(os.path.join(REPO, 'test_jsonpath_test.go'), encoding='utf-8', errors='replace').read()
+    lit = r'(`[^`]*`|"(?:[^"\\]|\\.)*")'
+    pairs = []
+    for m in re.finditer(r'jsonpath:\s*' + lit + r'\s*,\s*\n\s*inputJSON:\s*' + lit, src):
+        def unq(s):
+            if s.startswith('`'):
+                return s[1:-1]
+            try:
+                return json.loads(s)
+            except Exception:
+                return None
+        p, d = unq(m.group(1)), unq(m.group(2))
+        if p is not None and d is not None:
+            pairs.append((p, d))
+    # README examples: lines with a path in backticks
+    try:
+        readme = open(os.path.join(REPO, 'README.md'), encoding='utf-8', errors='replace').read()
+        extra = set(re.findall(r'`(\$[^`\n]{0,80})`', readme))
+    except Exception:
+        extra = set()
+    paths = sorted(set(p for p, _ in pairs) | extra)
+    pp = os.path.join(sdir, 'corpus_paths.ndjson')
+    with open(pp, 'w') as f:
+        for p in paths:
+            f.write(json.dumps(p) + '\n')
+    pq = os.path.join(sdir, 'corpus_pairs.ndjson')
+    seen = set()
+    with open(pq, 'w') as f:
+        for p, d in pairs:
+            if (p, d) not in seen:
+                seen.add((p, d))
+                f.write(json.dumps({'path': p, 'doc': d}) + '\n')
+    return pp, pq, len(paths), len(seen)
+
+
+def run_record(sdir, harness, gen_cmd, props, label, crashprop):
+    """generator | harness run -records : returns (summary, records path, generator stderr)"""
+    rec = os.path.join(sdir, label + '.records.ndjson')
+    out = os.path.join(sdir, label + '.sum.json')
+    g = subprocess.Popen([harness] + gen_cmd, cwd=sdir, stdout=subprocess.PIPE, stderr=subprocess.PIPE)
+    h = subprocess.Popen([harness, 'run', '-props', props, '-records', rec, '-out', out, '-crashprop', crashprop], stdin=g.stdout, cwd=sdir)
+    g.stdout.close()
+    gerr = g.stderr.read().decode(errors='replace')
+    h.wait()
+    if g.wait() != 0 or h.returncode != 0 or not os.path.exists(out):
+        raise Infra('recorder failed (%s): %s' % (label, gerr[-500:]))
+    summ = json.load(open(out))
+    if summ.get('infra'):
+        raise Infra('recorder reported: %s' % summ['infra'][:3])
+    return summ, rec, gerr
+
+
+def validate_trace(sdir, module, recfile, label, timeout=1800, chunk=100):
+    """TLC validates every record of recfile with Trace_<x>; returns (tlc stats, list of rejected {id, ...})"""
+    n = sum(1 for _ in open(recfile))
+    if n == 0:
+        return {'label': label, 'cmd': '', 'generated': 0, 'distinct': 0, 'wall_s': 0}, [], 0
+    st = run_tlc_only(sdir, module, {'TraceFile': os.path.basename(recfile), 'ChunkSize': chunk}, ['Inv'], timeout, label)
+    txt = open(st['log'], errors='replace').read()
+    if st['rc'] != 0 or st['error'] or not st['finished']:
+        raise Infra('trace validation %s failed (TLC error, not a verdict):\n%s' % (label, st['error'] or txt[-3000:]))
+    nchunks = (n + chunk - 1) // chunk
+    if st['distinct'] != 1 + nchunks + n:
+        raise Infra('trace validation %s consumed %d states, expected %d (= 1 + %d chunks + %d records)' % (label, st['distinct'], 1 + nchunks + n, nchunks, n))
+    rejected = []
+    for line in txt.splitlines():
+        if line.startswith('"{'):
+            try:
+                rejected.append(json.loads(json.loads(line)))
+            except Exception:
+                pass
+    return st, rejected, n
